@@ -109,7 +109,7 @@ func tagsOf(ctx context.Context, v orc.OCIView, last string) ([]string, error) {
 
 // compareViews is the differential oracle: the live store and a reopened view must
 // answer every observation identically.
-func compareViews(ctx context.Context, live, view orc.OCIView, d *gen.DAG, last, viewName, when string) *vt.Fail {
+func compareViews(ctx context.Context, live, view orc.OCIView, d *gen.DAG, dir, last, viewName, when string) *vt.Fail {
 	for _, l := range []string{"", last} {
 		a, err := tagsOf(ctx, live, l)
 		if err != nil {
@@ -172,10 +172,56 @@ func compareViews(ctx context.Context, live, view orc.OCIView, d *gen.DAG, last,
 			return vt.Failf("C08/predecessors-error", "%s: Predecessors(node %d): %v / %v", when, id, err1, err2)
 		}
 		if gen.TripleSetString(p1) != gen.TripleSetString(p2) {
+			if onlyUnindexedMissing(ctx, live, d, dir, p1, p2) {
+				return vt.Failf("C08/reopen-omits-unindexed-manifest", "%s: Predecessors(node %d %s): live %s, %s %s (the omitted manifests are stored but not reachable from any index.json entry)", when, id, n.Spec.Kind, gen.TripleSetString(p1), viewName, gen.TripleSetString(p2))
+			}
 			return vt.Failf("C08/reopen-predecessors-differ", "%s: Predecessors(node %d %s): live %s, %s %s", when, id, n.Spec.Kind, gen.TripleSetString(p1), viewName, gen.TripleSetString(p2))
 		}
 	}
 	return nil
+}
+
+// onlyUnindexedMissing reports whether the view's predecessor list equals the live
+// one minus manifests that are stored but unreachable from index.json.
+func onlyUnindexedMissing(ctx context.Context, live orc.OCIView, d *gen.DAG, dir string, liveP, viewP []ocispec.Descriptor) bool {
+	stored := map[int]bool{}
+	for _, id := range d.CanonIDs() {
+		if ok, err := live.Exists(ctx, d.Nodes[id].Desc); err == nil && ok {
+			stored[id] = true
+		}
+	}
+	indexed, err := orc.IndexedSet(dir, d, stored)
+	if err != nil {
+		return false
+	}
+	byKey := map[string]int{}
+	for _, id := range d.CanonIDs() {
+		byKey[gen.TripleKey(d.Nodes[id].Desc)] = id
+	}
+	inView := map[string]bool{}
+	for _, p := range viewP {
+		inView[gen.TripleKey(p)] = true
+	}
+	inLive := map[string]bool{}
+	missing := 0
+	for _, p := range liveP {
+		k := gen.TripleKey(p)
+		inLive[k] = true
+		if inView[k] {
+			continue
+		}
+		id, ok := byKey[k]
+		if !ok || !stored[id] || indexed[id] {
+			return false
+		}
+		missing++
+	}
+	for k := range inView {
+		if !inLive[k] {
+			return false
+		}
+	}
+	return missing > 0
 }
 
 func runCase(c Case) (res vt.Result, fail *vt.Fail) {
@@ -323,7 +369,7 @@ func runCase(c Case) (res vt.Result, fail *vt.Fail) {
 				return res, vt.Failf("C08/reopen-failed", "%s: oci.New: %v", when, err)
 			}
 			s2.AutoSaveIndex, s2.AutoGC = c.AutoSave, c.AutoGC
-			if f := compareViews(ctx, s, s2, d, op.Last, "oci.New", when); f != nil {
+			if f := compareViews(ctx, s, s2, d, dir, op.Last, "oci.New", when); f != nil {
 				res.Classes = keys(classes)
 				return res, f
 			}
@@ -339,7 +385,7 @@ func runCase(c Case) (res vt.Result, fail *vt.Fail) {
 			if err != nil {
 				return res, vt.Failf("C08/reopen-failed", "%s: NewFromFS: %v", when, err)
 			}
-			if f := compareViews(ctx, s, fsv, d, op.Last, "NewFromFS", when); f != nil {
+			if f := compareViews(ctx, s, fsv, d, dir, op.Last, "NewFromFS", when); f != nil {
 				res.Classes = keys(classes)
 				return res, f
 			}
@@ -351,7 +397,7 @@ func runCase(c Case) (res vt.Result, fail *vt.Fail) {
 			if err != nil {
 				return res, vt.Failf("C08/reopen-failed", "%s: NewFromTar(%s): %v", when, op.Fmt, err)
 			}
-			if f := compareViews(ctx, s, tv, d, op.Last, "NewFromTar/"+op.Fmt, when); f != nil {
+			if f := compareViews(ctx, s, tv, d, dir, op.Last, "NewFromTar/"+op.Fmt, when); f != nil {
 				res.Classes = keys(classes)
 				return res, f
 			}
@@ -386,7 +432,7 @@ func keys(m map[string]bool) []string {
 }
 
 func TestMain(m *testing.M) {
-	vt.Main(m, "C08", vt.NewLeg("main", 600, 2500, 16, genCase, runCase))
+	vt.Main(m, "C08", vt.NewLeg("main", 2500, 4000, 16, genCase, runCase))
 }
 
 func TestLegs(t *testing.T)   { vt.TestLegs(t) }
